@@ -703,7 +703,6 @@ func c20R4(a *A, m *ssa.Function) {
 	a.check(good, rule, "null-vs-empty@ColumnData", w.posOf(mc), "data = null iff c.Data == nil, else string(c.Data)", why+": SQL NULL and the empty string (or absent columns) become indistinguishable in the JSON")
 }
 
-
 // intStringTable evaluates the package-level map g (integer kind -> name) from the package initialiser: constant map updates
 // of a literal, or the result of an in-package function that inverts another literal table (name -> kind) by ranging over it.
 func intStringTable(initFn *ssa.Function, g *ssa.Global, depth int) map[int64]string {
